@@ -514,13 +514,14 @@ impl Clone for Repr {
 
             // check if we need reallocation, it happens when capacity is too small or too large
             if cap < src_len || cap > Buffer::max_compact_capacity(src_len) {
+                // allocate before releasing: if the allocation panics, self must still own its old buffer
+                let new_cap = Buffer::default_capacity(src_len);
+                let new_ptr = Buffer::allocate_raw(new_cap);
+
                 if cap > 2 {
                     // release the old buffer if necessary
                     Buffer::deallocate_raw(NonNull::new_unchecked(self.data.heap.0), cap);
                 }
-
-                let new_cap = Buffer::default_capacity(src_len);
-                let new_ptr = Buffer::allocate_raw(new_cap);
                 self.data.heap.0 = new_ptr.as_ptr();
                 // SAFETY: allocate_raw will allocates at least 2 words even if src_len is 0
                 self.capacity = NonZeroIsize::new_unchecked(new_cap as isize);
